@@ -65,15 +65,17 @@ def gen_sessions(ctx):
             to = rng.choice([0, 0o11, 0o21])
             if rng.random() < 0.12:
                 how = "loopback"  # to the node's own address: queued for its own application
-            reuse = (bool(msgs) and how not in ("multicast", "loopback")
-                     and msgs[-1]["how"] not in ("multicast", "loopback") and rng.random() < 0.45)
+            elif rng.random() < 0.12:
+                how = "direct"  # write(frame, traffic_direct=neighbour): handed to a chosen first hop
+            reuse = (bool(msgs) and how not in ("multicast", "loopback", "direct")
+                     and msgs[-1]["how"] not in ("multicast", "loopback", "direct") and rng.random() < 0.45)
             if reuse and rng.random() < 0.5:
                 # same header object, same fields; otherwise the application re-addresses /
                 # re-types the object it kept (the fields are public attributes)
                 t, to = msgs[-1]["type"], msgs[-1]["to"]
             msgs.append({"how": how, "len": ln, "type": t, "to": to, "reuse": reuse})
         outage = None
-        uni = [j for j, mm in enumerate(msgs) if mm["how"] != "multicast"]
+        uni = [j for j, mm in enumerate(msgs) if mm["how"] in ("send", "write")]
         if uni and rng.random() < 0.5:
             j = rng.choice(uni)
             nfr = max(1, -(-msgs[j]["len"] // 24))
@@ -136,6 +138,15 @@ def run_session(ctx, case):
                     ret = obj.multicast(msg, t, 2)
                     to = 0o100
                     fid = obj.frame_buf.header.frame_id
+                elif how == "direct":
+                    # the first hop is named by the caller (parent 0 or child 0o11); the frame on
+                    # air is the same header + message, whatever physical address it goes to
+                    hdr = Hdr(to, chr(t) if 32 < t < 127 and j % 2 else t)
+                    if j % 3 == 0:
+                        hdr.message_type = chr(t) if 32 < t < 127 else t  # a one-character string assigned later
+                    fid = hdr.frame_id
+                    ret = obj.write(Frame(hdr, msg), [0, 0o11][(n + j) % 2])
+                    t_str = hdr.message_type
                 elif how == "loopback":
                     hdr = Hdr(me, t)
                     fid = hdr.frame_id
@@ -186,7 +197,7 @@ def run_session(ctx, case):
                                  len(want), bad, distinct[bad].hex() if bad < len(distinct) else None,
                                  want[bad].hex() if bad < len(want) else None), case)
                 return
-            if how != "multicast":
+            if how in ("send", "write"):
                 accepted = _collapse([bytes(p.payload) for p in ph.acked[ack0:]])
                 ctx.clause("result_vs_accepted_frames")
                 if ret is True and accepted != want:
@@ -209,7 +220,12 @@ def run_session(ctx, case):
                         return
             if hdr is not None:
                 ctx.clause("caller_header_type")
-                if hdr.message_type != t:
+                if isinstance(hdr.message_type, str):
+                    if hdr.message_type != chr(t):
+                        ctx.violation("caller-header-type", "%s: caller's one-character type %r is %r afterwards"
+                                      % (what, chr(t), hdr.message_type), case)
+                        return
+                elif hdr.message_type != t:
                     ctx.violation("caller-header-type", "%s: caller's header type is %r afterwards (returned %r)"
                                   % (what, hdr.message_type, ret), case)
                     return
